@@ -203,3 +203,7 @@ def run(ctx):
     r3_6(ctx)
     from ..initflags import group_rule
     group_rule(ctx, "R3.7", "pairing", "a task keeps a resource that no longer knows the task (or the reverse), so the next allocation hands the resource to a second task")
+    # "WORKING exactly when it holds a task and is not absent": the per-step absence refresh must be the last writer of resource state
+    # before allocation (a release inside the finish check that runs after it would overwrite ABSENCE with FREE)
+    from .C04 import r4_4
+    r4_4(ctx)
